@@ -56,11 +56,15 @@ public:
     std::uint64_t reorders = 0;     // collectives whose arrival order was not rank order
     Fnv interleave;                 // hash of arrival orders and reduction orders
     std::uint64_t step_budget = 0;
+    double fs_yield_p = 0;          // probability that a rank hands the baton back before a file system call
+    std::uint64_t fs_yields = 0;
 
     // used by the MPI_* entry points
     int allreduce(int rank, void* buf, int count, int dtype, int comm);
     int comm_rank(int comm, int world_rank) const;
     int comm_size(int comm, int world_rank) const;
+    // a file system call of rank r: a scheduling point (other ranks may run before the call takes effect)
+    void fs_point(int rank);
 
 private:
     void give(int r);               // scheduler: hand the baton to r and wait until it comes back
@@ -71,6 +75,7 @@ private:
     std::mutex m_;
     std::condition_variable cv_;
     int baton_ = -1;
+    std::uint64_t sseed_ = 0;
     Rng rng_;
     int rorder_;
     double stall_p_;
@@ -79,6 +84,8 @@ private:
 
 MpiWorld*& current_world();
 int& current_rank();
+// called by the file model before every intercepted call
+void fs_sched_point();
 
 }
 
